@@ -469,10 +469,40 @@ class _Quiet:
             lg.setLevel(lvl)
 
 
-def run_case(case, app_factory=None):
+class _Stalled(Exception):
+    pass
+
+
+def _run_once(case):
     with _Quiet():
         with vloop.installed() as lp:
-            return _run(case, lp, app_factory)
+            return _run(case, lp, None)
+
+
+def run_case(case, app_factory=None):
+    """A case takes milliseconds.  On a heavily oversubscribed machine a worker has been seen to stall for minutes;
+    a stalled attempt is abandoned after 40 s and the case is run again from scratch (it is deterministic), the
+    last attempt under the runner's own watchdog only — a genuine non-termination is still reported by the runner."""
+    import signal
+    for _ in range(3):
+        def on_alarm(signum, frame):
+            raise _Stalled()
+        try:
+            old_handler = signal.signal(signal.SIGALRM, on_alarm)
+        except ValueError:          # not in the main thread: no inner watchdog
+            return _run_once(case)
+        old_left, _ = signal.setitimer(signal.ITIMER_REAL, 40)
+        try:
+            return _run_once(case)
+        except _Stalled:
+            old_left = max(1.0, old_left - 40) if old_left else 0
+            continue
+        finally:
+            signal.setitimer(signal.ITIMER_REAL, 0)
+            signal.signal(signal.SIGALRM, old_handler)
+            if old_left:
+                signal.setitimer(signal.ITIMER_REAL, old_left)
+    return _run_once(case)
 
 
 def _run(case, lp, app_factory):
